@@ -754,3 +754,115 @@ Proof.
   split; [repeat constructor|]. vm_compute. repeat split; auto; try (intros H; intuition discriminate).
 Qed.
 
+(* ------------------------------------------------------------------------------------ *)
+(* liquidationsV2 after the repairs C09-F2 (own offset key) and C09-F3 (per-item wrap)    *)
+
+Definition is_seize (v : verdict) : bool := match v with VSeize => true | _ => false end.
+Definition bseizes (vf : Z -> verdict) (liq : list Z) (id : Z) : bool :=
+  negb (mem_z id liq) && is_seize (vf id).
+
+(* the wrapped loop visits EVERY item of the window, whatever the verdicts of the others *)
+Lemma sweep_items_bpos : forall vf liq w,
+  sweep_items GB2 0 (map (bpos vf liq) w) = filter (bseizes vf liq) w.
+Proof.
+  induction w as [|a w IH]; [reflexivity|].
+  cbn [map sweep_items eff_verdict bpos p_v p_id filter]. unfold bseizes at 1.
+  destruct (mem_z a liq); cbn [negb andb]; [exact IH|].
+  destruct (vf a); cbn [is_seize]; rewrite IH; reflexivity.
+Qed.
+
+Lemma mem_z_app : forall x l1 l2, mem_z x (l1 ++ l2) = mem_z x l1 || mem_z x l2.
+Proof. intros. unfold mem_z. apply existsb_app. Qed.
+
+Lemma after_seize_bpos : forall vf liq sz ids,
+  after_seize GB2 sz (map (bpos vf liq) ids) = map (bpos vf (liq ++ sz)) ids.
+Proof.
+  intros vf liq sz ids. unfold after_seize. cbn [removes]. rewrite map_map. apply map_ext. intro a.
+  unfold bpos. cbn [p_id p_app]. rewrite mem_z_app.
+  destruct (mem_z a sz); [rewrite orb_true_r; reflexivity|rewrite orb_false_r; reflexivity].
+Qed.
+
+Lemma sweep_core_bpos : forall ids liq off b vf,
+  sweep_core GB2 0 (map (bpos vf liq) ids) (zlen ids) (zlen ids) off b =
+    Ok (filter (bseizes vf liq) (window_of ids off b),
+        map (bpos vf (liq ++ filter (bseizes vf liq) (window_of ids off b))) ids,
+        snd (sweep_window (zlen ids) off b)).
+Proof.
+  intros ids liq off b vf. unfold sweep_core, window_of.
+  destruct (sweep_window_ok_lem (zlen ids) off b (zlen_nonneg ids)) as ((H1 & H2) & H3).
+  set (se := sweep_window (zlen ids) off b) in *.
+  unfold go_slice.
+  replace ((0 <=? fst se) && (fst se <=? snd se) && (snd se <=? zlen ids)) with true by lia.
+  rewrite zlen_map. replace (zlen ids - zlen ids) with 0 by lia. cbn [Z.to_nat repeat].
+  rewrite app_nil_r, skipn_map, firstn_map, sweep_items_bpos, after_seize_bpos. reflexivity.
+Qed.
+
+Lemma bblock_ids_eq : forall ids liq off b vf,
+  bblock_ids ids liq off b vf =
+    (filter (bseizes vf liq) (window_of ids off b), snd (sweep_window (zlen ids) off b)).
+Proof. intros. unfold bblock_ids. rewrite sweep_core_bpos. reflexivity. Qed.
+
+Lemma int_of_u64_zlen {A} (l : list A) : zlen l < two63 -> int_of_u64 (zlen l) = zlen l.
+Proof. intro H. unfold int_of_u64. pose proof (zlen_nonneg l). replace (zlen l >=? two63) with false by lia. reflexivity. Qed.
+
+(* the block of the borrow schedule IS the keepers' V2 borrow sweep (list sliced by its own
+   length); afterwards the list holds the same ids, the seized ones marked liquidated *)
+Lemma bblock_is_sweep_one : forall ids liq off b vf, zlen ids < two63 ->
+  exists r, sweep_one GB2 0 (map (bpos vf liq) ids) (zlen ids) (zlen ids) off b = Ok r /\
+            bblock_ids ids liq off b vf = (r_seized r, r_off r) /\
+            r_list r = map (bpos vf (liq ++ r_seized r)) ids.
+Proof.
+  intros ids liq off b vf Hlt. unfold sweep_one. rewrite (int_of_u64_zlen ids Hlt), sweep_core_bpos.
+  eexists. split; [reflexivity|]. cbn [r_seized r_off r_list]. split; [apply bblock_ids_eq|reflexivity].
+Qed.
+
+(* ---- the V2 hook: vault sweep under key 0, borrow sweep under key 1, independent ---- *)
+
+(* the borrow sweep of the hook never fails and never panics, whatever the borrows' verdicts *)
+Lemma sweep_one_borrow_total : forall l off b, zlen l < two63 ->
+  exists r, sweep_one GB2 0 l (zlen l) (zlen l) off b = Ok r /\
+            r_off r = snd (sweep_window (zlen l) off b) /\ map p_id (r_list r) = map p_id l.
+Proof.
+  intros l off b Hlt. unfold sweep_one. rewrite (int_of_u64_zlen l Hlt). unfold sweep_core.
+  destruct (sweep_window_ok_lem (zlen l) off b (zlen_nonneg l)) as ((H1 & H2) & H3).
+  set (se := sweep_window (zlen l) off b) in *.
+  unfold go_slice.
+  replace ((0 <=? fst se) && (fst se <=? snd se) && (snd se <=? zlen l)) with true by lia.
+  eexists. split; [reflexivity|]. cbn [r_off r_list]. split; [reflexivity|].
+  unfold after_seize. cbn [removes]. rewrite map_map. apply map_ext. intro p.
+  destruct (mem_z (p_id p) _); reflexivity.
+Qed.
+
+(* the vault half of the V2 hook is the block of the vault schedule, whatever the borrows and the
+   borrow offset are: the liveness theorems for the single-offset sweep apply to liquidationsV2 *)
+Lemma v2_hook_vault_block : forall ids off0 b u bl off1, zlen ids < two63 -> zlen bl < two63 ->
+  exists sb st', sweep_v2 (fun n => n) b (mkV2 (map (lpos u) ids) (zlen ids) off0 bl off1) =
+                   Ok (fst (fst (block_ids ids off0 b u)), sb, st') /\
+    map p_id (t_list st') = snd (fst (block_ids ids off0 b u)) /\
+    t_off0 st' = snd (block_ids ids off0 b u) /\
+    map p_id (t_borrows st') = map p_id bl /\ t_off1 st' = snd (sweep_window (zlen bl) off1 b).
+Proof.
+  intros ids off0 b u bl off1 Hi Hb.
+  destruct (block_is_sweep_one GV2 ids off0 b u (or_intror eq_refl) Hi) as (r1 & E1 & B1).
+  destruct (sweep_one_borrow_total bl off1 b Hb) as (r2 & E2 & O2 & L2).
+  unfold sweep_v2. cbn [t_list t_counter t_off0 t_borrows t_off1]. rewrite zlen_map, E1, E2.
+  eexists. eexists. split; [rewrite B1; reflexivity|]. cbn [t_list t_off0 t_borrows t_off1].
+  rewrite B1. cbn [fst snd]. repeat split; assumption.
+Qed.
+
+(* the borrow half of the V2 hook is the block of the borrow schedule, whatever the vault sweep
+   seizes (as long as the vault sweep itself returns: C15's slice classes) *)
+Lemma v2_hook_borrow_block : forall capf vl counter off0 b r1 ids liq off1 vf, zlen ids < two63 ->
+  sweep_one GV2 0 vl (capf (zlen vl)) counter off0 b = Ok r1 ->
+  exists st', sweep_v2 capf b (mkV2 vl counter off0 (map (bpos vf liq) ids) off1) =
+                Ok (r_seized r1, fst (bblock_ids ids liq off1 b vf), st') /\
+    t_borrows st' = map (bpos vf (liq ++ fst (bblock_ids ids liq off1 b vf))) ids /\
+    t_off1 st' = snd (bblock_ids ids liq off1 b vf) /\
+    t_list st' = r_list r1 /\ t_off0 st' = r_off r1.
+Proof.
+  intros capf vl counter off0 b r1 ids liq off1 vf Hi E1.
+  destruct (bblock_is_sweep_one ids liq off1 b vf Hi) as (r2 & E2 & B2 & L2).
+  unfold sweep_v2. cbn [t_list t_counter t_off0 t_borrows t_off1]. rewrite E1, zlen_map, E2.
+  eexists. split; [rewrite B2; reflexivity|]. cbn [t_list t_off0 t_borrows t_off1].
+  rewrite B2. cbn [fst snd]. repeat split; try reflexivity. exact L2.
+Qed.
